@@ -408,11 +408,22 @@ func (hash *SexpHash) HashDelete(key Sexp) error {
 		return nil
 	}
 
-	hash.NumKeys--
 	for i, pair := range arr {
 		res, err := hash.Env.Compare(pair.Head, key)
 		if err == nil && res == 0 {
 			hash.Map[hashval] = append(arr[0:i], arr[i+1:]...)
+			if len(hash.Map[hashval]) == 0 {
+				delete(hash.Map, hashval)
+			}
+			hash.NumKeys--
+			// keep KeyOrder in sync: drop the deleted key.
+			for j, k := range hash.KeyOrder {
+				res, err := hash.Env.Compare(k, key)
+				if err == nil && res == 0 {
+					hash.KeyOrder = append(hash.KeyOrder[:j:j], hash.KeyOrder[j+1:]...)
+					break
+				}
+			}
 			break
 		}
 	}
